@@ -904,6 +904,8 @@ def harvest_run(algo, inst, sched, policy, on_message):
         if params and "stop_cycle" not in [p.name for p in getattr(am, "algo_params", [])]:
             continue
         try:
+            # constructors draw too (max-sum noise): they get this run's answer policy, not a stale controller
+            choice_mod.set_controller(Last() if policy == "last" else choice_mod.Controller())
             with contextlib.redirect_stdout(io.StringIO()):
                 world, _, _ = ls_common.build_world(spec, algo, params)
             break
